@@ -107,7 +107,8 @@ PROPS["C20"] = dict(
     rule="seeded corpus of statements (SELECT with 1-3 clauses of every driver lookup shape incl. OPTIONAL, GROUP BY / ORDER BY / LIMIT / global bounds; INSERT; DELETE; "
          "CREATE; DROP; CONSTRUCT / DECONSTRUCT with and without ';' reification; SHOW) over 1-3 graphs; per statement one fault-free run under tape T records the driver "
          "call trace c1..cn, then ONE RUN PER (call position, mode) under the same tape with that single fault: non-streaming calls fail; streaming calls fail before the "
-         "first element and after j delivered elements (j in {1, 2, n/2, n-1, n}); the caller's context is cancelled when the call starts and after j elements (j in {1, n}); plus sampled double faults. "
+         "first element and after j delivered elements (j in {1, 2, n/2, n-1, n}); the caller's context is cancelled when the call starts and after j elements (j in {1, n}); a SLOW call (the call takes 1-6 simulated seconds before it answers, or streams with a simulated second before each of its first elements: the statement must behave exactly as in the "
+         "fault-free run - same success / failure, same rows - and return); plus sampled double faults. "
          "The simulated driver is context-ignoring (like storage/memory) or context-aware (returns ctx.Err() once the context is done: cancellation by the caller or by the engine's own errgroup "
          "then turns into further driver errors), a per-case knob. The prefix of the call trace up to the fault must equal the "
          "fault-free one (checked). Oracle per run: whenever a driver call returned an error to the engine Execute returns a non-nil error; never (nil, nil); it returns (no deadlock, no step cap); no goroutine of the call is left "
